@@ -1705,7 +1705,13 @@ class Interp:
     def ex_List(self, n, as_tuple=False):
         from .builtins import list_literal
 
-        return list_literal(self, n)
+        r = list_literal(self, n)
+        if isinstance(r, V) and n.elts and getattr(r, "meta", None) is None:
+            try:
+                r.meta = "display"  # written as [a, b, c] in the source: its length is a literal
+            except AttributeError:
+                pass
+        return r
 
     def ex_Set(self, n):
         vals = [self.ev(e) for e in n.elts]
